@@ -114,6 +114,11 @@ func main() {
 			bad = append(bad, fmt.Sprintf("UNGATED acquisition of %s in %s at %s (held shared %v excl %v)", ar.LockName, ar.Func, ar.Pos[0], lockNames(res, ar.HeldShared), lockNames(res, ar.HeldExcl)))
 		}
 	}
+	for _, ct := range res.CTA {
+		if !ct.Listed {
+			bad = append(bad, fmt.Sprintf("NEW CHECK-THEN-ACT in %s: the value of %s, obtained under %s, is tested at %s and %s is taken again at %s (two critical sections: the tested fact may no longer hold)", ct.Func, ct.Source, ct.LockName, ct.CondPos, ct.LockName, ct.ActPos))
+		}
+	}
 	for _, co := range res.ChanOps {
 		if !co.Justified {
 			bad = append(bad, fmt.Sprintf("BLOCKING CHANNEL OP UNDER LOCK: %s on %s in %s at %s (locks possibly held %v): %s", co.Op, co.Chan, co.Func, co.Pos[0], lockNames(res, co.Held), co.Why))
@@ -231,6 +236,17 @@ type chanOpOut struct {
 	drainedAll    bool
 }
 
+type ctaOut struct {
+	Site     int    `json:"site"`
+	Func     string `json:"func"`
+	Lock     int    `json:"lock"`
+	LockName string `json:"lock_name"`
+	Source   string `json:"source"`
+	CondPos  string `json:"condition"`
+	ActPos   string `json:"later_acquisition"`
+	Listed   bool   `json:"listed"`
+}
+
 type exemptOut struct {
 	Field  string `json:"field"`
 	Reason string `json:"reason"`
@@ -256,6 +272,8 @@ type summary struct {
 	FreshSkipped       int `json:"accesses_on_fresh_objects"`
 	InitSkipped        int `json:"accesses_in_init_functions"`
 	AddrTaken          int `json:"address_taken_sites_not_followed"`
+	CTARows            int `json:"check_then_act_rows"`
+	UnlistedCTA        int `json:"unlisted_check_then_act_rows"`
 	ChanOpsUnderLock   int `json:"channel_ops_under_lock"`
 	UnjustifiedChanOps int `json:"unjustified_channel_ops_under_lock"`
 	GatedAcqRows       int `json:"gated_acquisition_rows"`
@@ -273,6 +291,10 @@ type result struct {
 	Edges      []edgeOut         `json:"edges"`
 	KnownEdges []edgeOut         `json:"known_edges"`
 	Gates      []gateOut         `json:"gates"`
+	// CTA: check-then-act rows (a value obtained under a guard lock in a hold
+	// that is over is tested, and the same lock is taken again later in the
+	// function); each must be in the reviewed baseline of guards.json.
+	CTA []ctaOut `json:"check_then_act"`
 	// ChanOps: potentially blocking channel operations made while a lock is
 	// (possibly) held; channels are not part of the lock machine, every such
 	// site must be justified in the reviewed table.
@@ -388,6 +410,14 @@ func renderLean(r *result) string {
 		}
 		fmt.Fprintf(&b, "  ⟨%d, %d, %v, %s, %v⟩%s  -- %s %s %s %s %s\n", co.Site, co.ChanID, co.Op == "send", intsLean(co.Held), co.Justified, sep, co.Func, co.Op, co.Chan, co.Justification, co.Pos[0])
 	}
+	b.WriteString("]\n\n/-- check-then-act rows: site, lock, in the reviewed baseline -/\ndef ctaRows : List CtaRow := [\n")
+	for i, ct := range r.CTA {
+		sep := ","
+		if i == len(r.CTA)-1 {
+			sep = ""
+		}
+		fmt.Fprintf(&b, "  ⟨%d, %d, %v⟩%s  -- %s: %s tested at %s, %s taken again at %s\n", ct.Site, ct.Lock, ct.Listed, sep, ct.Func, ct.Source, ct.CondPos, ct.LockName, ct.ActPos)
+	}
 	b.WriteString("]\n\n/-- a cycle of `edges ++ knownEdges` through a known edge (empty if there is none) -/\n")
 	fmt.Fprintf(&b, "def knownCycle : List Nat := %s\n", intsLean(r.KnownCycle))
 	b.WriteString("\nend AGH.Gen.C05\n")
@@ -418,6 +448,10 @@ func printReport(r *result) {
 		}
 	}
 	fmt.Println("== stale known entries:", r.StaleKnown)
+	fmt.Println("== check-then-act rows")
+	for _, ct := range r.CTA {
+		fmt.Printf("  %s | %s | %s | cond %s act %s listed=%v\n", ct.Func, ct.LockName, ct.Source, ct.CondPos, ct.ActPos, ct.Listed)
+	}
 	fmt.Println("== channel ops under lock")
 	for _, co := range r.ChanOps {
 		fmt.Printf("  %s %s %s cap=%d held=%v drained_under=%v justified=%v (%s) %s %s\n", co.Func, co.Op, co.Chan, co.Cap, lockNames(r, co.Held), co.DrainedUnder, co.Justified, co.Justification, co.Why, strings.Join(co.Pos, " "))
